@@ -789,7 +789,7 @@ class SemantivaOrchestrator(ABC):
 
     def _resolve_processor_classes(
         self, canonical: dict[str, Any], resolved_spec: Sequence[dict[str, Any]]
-    ) -> list[type]:
+    ) -> list[Any]:
         """Resolve processor classes from resolved spec without instantiation.
 
         This allows computing semantic IDs before emitting any node events.
@@ -797,17 +797,21 @@ class SemantivaOrchestrator(ABC):
         """
         from semantiva.registry import resolve_symbol
 
-        classes: list[type] = []
+        classes: list[Any] = []
         for node_def in resolved_spec:
             proc = node_def.get("processor")
 
-            # Resolve class reference
-            if isinstance(proc, str):
-                proc_cls = resolve_symbol(proc)
-            elif isinstance(proc, type):
+            # Resolve class reference. A processor that cannot be resolved is
+            # reported by node construction (in declaration order, exactly as in
+            # an untraced run); here it only means "no semantic metadata".
+            proc_cls: Any = None
+            if isinstance(proc, type):
                 proc_cls = proc
-            else:
-                raise ValueError(f"Invalid processor specification: {proc}")
+            elif isinstance(proc, str):
+                try:
+                    proc_cls = resolve_symbol(proc)
+                except Exception:
+                    proc_cls = None
 
             classes.append(proc_cls)
 
